@@ -208,19 +208,20 @@ def generate(run, tier):
     """TextModel = TypeGen + the model-level invariant; emits the cases."""
     if tier == 'quick':
         bfs = [(1, False, ['A'])]
-        sim = ('num=4', 3, ['A'])
+        sim = None          # nesting / references / recursion come from extra_cases(); BFS depth 2 is the thorough tier
     else:
         bfs = [(2, False, ['A']), (1, True, ['I'])]
-        sim = ('num=1500', 6, ['E', 'A'])
+        sim = ('num=400', 6, ['E', 'A'], True)
     cases = []
     for n, (d, rich, tds) in enumerate(bfs):
         out, res = pl.tlc_generate(run, 'TextModel', model_cfg(d, rich, tds), 'gen%d.ndjson' % n, workers=8,
                                    what='TextModel BFS depth<=%d rich=%s: Read(Tree(T,v)) = v' % (d, rich))
         cases += pl.dedup_cases(out, 'g%d' % n)
-    out, res = pl.tlc_generate(run, 'TextModel', model_cfg(sim[1], True, sim[2]), 'gensim.ndjson', workers=1,
-                               simulate=sim[0], depth=sim[1] + 1,
-                               what='TextModel simulate %s depth %d' % (sim[0], sim[1]))
-    cases += pl.dedup_cases(out, 's')
+    if sim:
+        out, res = pl.tlc_generate(run, 'TextModel', model_cfg(sim[1], sim[3], sim[2]), 'gensim.ndjson', workers=1,
+                                   simulate=sim[0], depth=sim[1] + 1,
+                                   what='TextModel simulate %s depth %d' % (sim[0], sim[1]))
+        cases += pl.dedup_cases(out, 's')
     seen, uniq = set(), []
     for c in cases:
         h = hashlib.sha1(json.dumps([c['env'], c['vals']], sort_keys=True).encode()).hexdigest()
